@@ -529,7 +529,20 @@ class Body:
                     out.append((b, 'some' if rv['variant'] == 'Some' else 'none', rv['variant']))
                 else:
                     e = self._expr_rvalue(rv, 0, frozenset())
-                    out.append((b, 'value', e))
+                    kind = 'value'
+                    # a Result/Option variable returned on the edge where it is known to be Err/None
+                    for lit in self.literals_at(b):
+                        le = lit['expr']
+                        if le[0] == 'discr' and le[1] == e:
+                            taken = lit['vals'] if not lit['else'] else [v for v in (0, 1) if v not in lit['arms']]
+                            lty = self._discr_type(lit['bb'], self.term(lit['bb'])) or ''
+                            if 'Result<' in lty and taken == [1]:
+                                kind = 'err'
+                            elif 'Result<' in lty and taken == [0]:
+                                kind = 'ok'
+                            elif 'Option<' in lty and taken == [0]:
+                                kind = 'none'
+                    out.append((b, kind, e))
         return out
 
     def ok_return_blocks(self, include_tail=True):
